@@ -208,17 +208,17 @@ def worker(task, col):
     M.Tap(DSG, 'get_for_adjusted', counter=col.count)
     if task.get('replay'):
         v = task['replay']['violation']
-        check_case(v['spec'], col, 'replay', v.get('seed_parts', ['replay']), 40)
+        common.guard(col, check_case, v['spec'], col, 'replay', v.get('seed_parts', ['replay']), 40)
         return
     if task['shard'] == 0:
         check_class_record(col)
         for c in common.corpus('C08'):
             for rep in range(3):
-                check_case(c['spec'], col, 'corpus', ['corpus', c['file'], rep], task['n_ops'])
+                common.guard(col, check_case, c['spec'], col, 'corpus', ['corpus', c['file'], rep], task['n_ops'])
     for i in range(task['lo'], task['hi']):
         name, sp = case_spec(task['seed'], i)
         n0 = len(col.violations)
-        check_case(sp, col, name, ['C08', task['seed'], i], task['n_ops'])
+        common.guard(col, check_case, sp, col, name, ['C08', task['seed'], i], task['n_ops'])
         for v in col.violations[n0:]:
             v['seed_parts'] = ['C08', task['seed'], i]
 
